@@ -248,6 +248,10 @@ func sAlphabet(tier string) []sOp {
 	for _, i := range inos {
 		al = append(al, sOp{K: "GETATTR", Ino: i})
 	}
+	// numbers whose byte address wraps around 2^64 (inode size 128 bytes, 2^57 * 128 = 2^64) or exceeds 32 bits
+	for _, i := range []uint64{1<<57 + 2, 1<<63 + 3, 1<<54 + 2, 1<<32 + 2, 1<<61 + 31} {
+		al = append(al, sOp{K: "GETATTR", Ino: i}, sOp{K: "WRITE", Ino: i, Off: 0, Cnt: 100, Pat: 0x3f}, sOp{K: "READ", Ino: i, Off: 0, Cnt: 4096}, sOp{K: "SETATTR", Ino: i, Size: 100})
+	}
 	for _, i := range []uint64{2, 31, 0, 32} {
 		for _, off := range []uint64{0, 1, 100, 4095, 4096, 4097, 1<<64 - 1} {
 			for _, c := range []uint64{0, 1, 100, 4096, 4097} {
@@ -561,7 +565,7 @@ func C17(r *report.Report, tier string) {
 	if tier == "thorough" {
 		depth, cdepth, bound = 3, 3, 3
 	}
-	r.Rule = fmt.Sprintf("specification: inodes 2..31 are files of at most 4096 bytes; sequential: every sequence of <=%d requests (from the initial state and from two non-initial states: a file written and then shrunk, a full file) over a %d-symbol alphabet (inode numbers {0,1,2,3,31,32,2^64-1}; WRITE offsets {0,1,100,4095,4096,4097,2^64-1} x counts {0,1,100,4096,4097} x data lengths {count,count-1,count+1}; READs; SETATTR sizes up to 2^64-1; restart) - every reply (status, count, data, eof, size) and the final contents against the specification; crash: every crash image of every mutating history of depth <=%d recovered with simple.Recover under two schedules: contents = specification after a prefix containing every acknowledged request, and the server keeps serving; concurrent: all schedules with <=%d deviations of 2-3 clients on one file, brute-force linearizability; concurrent + crash: for every schedule (one deviation less, no state caching) of three 2-client harnesses every crash image of the recorded trace, at every cut at which it is possible: the requests acknowledged before the cut with their replies (reads included: the server keeps a file locked until its update is on disk), any subset of the pending ones and the contents after recovery must be linearizable", depth, len(al), cdepth, bound)
+	r.Rule = fmt.Sprintf("specification: inodes 2..31 are files of at most 4096 bytes; sequential: every sequence of <=%d requests (from the initial state and from two non-initial states: a file written and then shrunk, a full file) over a %d-symbol alphabet (inode numbers {0,1,2,3,31,32,2^64-1} and numbers of the form k*2^n + small whose byte address wraps around; WRITE offsets {0,1,100,4095,4096,4097,2^64-1} x counts {0,1,100,4096,4097} x data lengths {count,count-1,count+1}; READs; SETATTR sizes up to 2^64-1; restart) - every reply (status, count, data, eof, size) and the final contents against the specification; crash: every crash image of every mutating history of depth <=%d recovered with simple.Recover under two schedules: contents = specification after a prefix containing every acknowledged request, and the server keeps serving; concurrent: all schedules with <=%d deviations of 2-3 clients on one file, brute-force linearizability; concurrent + crash: for every schedule (one deviation less, no state caching) of three 2-client harnesses every crash image of the recorded trace, at every cut at which it is possible: the requests acknowledged before the cut with their replies (reads included: the server keeps a file locked until its update is on disk), any subset of the pending ones and the contents after recovery must be linearizable", depth, len(al), cdepth, bound)
 	var mut []sOp
 	for _, o := range al {
 		if (o.K == "WRITE" || o.K == "SETATTR") && o.Ino == 2 && (sSpec{}).apply(o).OK || (o.K == "WRITE" && o.Ino == 2 && o.Off <= 100 && o.Cnt == 100 && o.DLen == 0) {
